@@ -415,7 +415,7 @@ theorem execArrayIndex_mono (c : Ctx) {item : ItemK} (hI : MonoI item) (s : St) 
   unfold execArrayIndex
   try dsimp only
   split
-  · simpa [returnVerboseError_st] using h
+  · simpa [structural_st] using h
   · rename_i xs _
     have hinv : (subs.foldl (indexSubStep c item nx xs v)
         ⟨{ s with innermost := xs.length }, f, .notFound, none, none⟩).canc = true := by
@@ -1284,7 +1284,7 @@ theorem execArrayIndex_sim (c : Ctx) {item : ItemK} (hM : MonoI item) (hS : SimI
   revert h
   unfold execArrayIndex
   split
-  · intro _; exact returnVerboseError_lift φ s f
+  · intro _; exact structural_lift φ s f
   · rename_i xs _
     exact indexLoop_sim φ c hM hS nx xs v s subs f
 
